@@ -17,7 +17,10 @@ pub struct Wt {
 }
 
 pub fn wt_cfg() -> Cfg {
-    Cfg::default()
+    Cfg {
+        shadow_pct: 12,
+        ..Cfg::default()
+    }
 }
 
 /// Compares an implementation outcome with the expectation. Returns violations.
